@@ -320,9 +320,13 @@ func TestC20Redundant(t *testing.T) {
 	runRapid(t, 1500, 15000, func(rt *rapid.T) {
 		c := rec.Begin()
 		c.Class("redundancy")
-		tc := newTwoChain(tcOpts{nExecutors: 1})
+		tc := newTwoChain(tcOpts{nExecutors: rapid.IntRange(1, 3).Draw(rt, "executors")})
 		l2 := tc.l2
-		exec := tc.executors[0].Str
+		// any of the listed executors relays
+		exec := tc.executors[rapid.IntRange(0, len(tc.executors)-1).Draw(rt, "relayer")].Str
+		if len(tc.executors) > 1 {
+			c.Class("redundancy/several-executors")
+		}
 		// process a drawn number of deposits so that NextL1Sequence = n+1
 		n := rapid.IntRange(0, 4).Draw(rt, "processed")
 		var pend []*pendingDeposit
